@@ -32,15 +32,19 @@ def build_template(tpl, variant):
         start = "/".join("{%s}" % n for n in date) + "/" + ("x" + grp("", tfs, "") if tfs else "x")
     elif variant == 2:
         start = "{%s}/{sat}/{sat}.v1.0_" % date[0] + grp("", date + tfs, ".")
+    elif variant == 4:
+        # cumulative directory levels: every date field is repeated, and an earlier field repeats before the next one first
+        # appears ({year}/{year}{month}/{year}{month}{day}/...); several of these fields share one regex (two digits)
+        start = "/".join(grp("", date[:i + 1], "") for i in range(len(date))) + "/x" + grp("", date + tfs, "")
     else:
         start = "{sat}_" + grp("", date, "-") + ("T" + grp("", tfs, ":") if tfs else "")
     if tpl["ek"] == "full":
-        end = "-" + grp("end_", DATE[tpl.get("edate", tpl["date"])] + tfs, "" if variant in (0, 1) else ".")
+        end = "-" + grp("end_", DATE[tpl.get("edate", tpl["date"])] + tfs, "" if variant in (0, 1, 4) else ".")
     elif tpl["ek"] == "partial":
-        end = "-" + grp("end_", [f for f in TF if f in tpl["ep"]], "" if variant in (0, 1) else ".")
+        end = "-" + grp("end_", [f for f in TF if f in tpl["ep"]], "" if variant in (0, 1, 4) else ".")
     else:
         end = ""
-    return start + end + ".dat", variant >= 2
+    return start + end + ".dat", variant in (2, 3)
 
 
 def replay_case(col, item):
@@ -252,7 +256,7 @@ def run(ctx):
     if len(cases) < 100:
         raise MachineryError("too few name cases: %d" % len(cases))
     ctx.exhaustive = not quick
-    items = [(c, n % 4) for n, c in enumerate(cases)] if quick else [(c, v) for c in cases for v in range(4)]
+    items = [(c, n % 5) for n, c in enumerate(cases)] if quick else [(c, v) for c in cases for v in range(5)]
     pmap(ctx, replay_case, items)
     ctx.traces += len(items)
     ctx.sample({"tpl": cases[7]["tpl"], "s": cases[7]["s"], "rows": cases[7]["rows"][:2]})
